@@ -175,6 +175,65 @@ Fixpoint depth (q : Q) : nat :=
   | _ => 0
   end.
 
+(** -- FileMatch.Branches ------------------------------------------------------------------------ *)
+(** indexData.gatherBranches: the branches reported for a matching file are (mask of the branch atoms that
+    "contributed" to the match) or, when there is none, all branches of the file; in the order of the repository's
+    branch list.  Which branch atoms are in the match tree depends on the shard: d.simplify turns repository
+    predicates into constants (all live repositories of the shard match => TRUE, none => FALSE; a BranchesRepos
+    listing no repository of the shard => FALSE) and query.Simplify folds the constants — (or branch:b TRUE)
+    becomes TRUE and loses the branch atom.  [simp_sh] models both as far as constants go. *)
+Fixpoint simp_sh (s : shard) (q : Q) : Q :=
+  match q with
+  | QRepoPred p => if forallb p (sh_repos s) then QConst true
+                   else if existsb p (sh_repos s) then q else QConst false
+  | QBranchesRepos l => if existsb (fun r => existsb (fun bi => memN (r_id r) (snd bi)) l) (sh_repos s) then q else QConst false
+  | QAnd2 a b =>
+      match simp_sh s a, simp_sh s b with
+      | QConst false, _ => QConst false
+      | _, QConst false => QConst false
+      | QConst true, b' => b'
+      | a', QConst true => a'
+      | a', b' => QAnd2 a' b'
+      end
+  | QOr2 a b =>
+      match simp_sh s a, simp_sh s b with
+      | QConst true, _ => QConst true
+      | _, QConst true => QConst true
+      | QConst false, b' => b'
+      | a', QConst false => a'
+      | a', b' => QOr2 a' b'
+      end
+  | QNot a => match simp_sh s a with QConst b => QConst (negb b) | a' => QNot a' end
+  | _ => q
+  end.
+
+(** the branches contributed by the branch atoms visited by visitMatchAtoms for a document: and/or nodes are
+    entered when known to match (an or-node evaluates all its children), not-nodes never; an atom contributes
+    fileMask & its per-repository mask (Branch{HEAD}: mask 1 = the first branch) *)
+Fixpoint bcontrib (q : Q) (r : repo) (d : doc) : list N :=
+  match q with
+  | QBranchExact b =>
+      if N.eqb b HEAD
+      then match r_branches r with b0 :: _ => if memN b0 (d_branches d) then [b0] else [] | [] => [] end
+      else if in_branch r d b then [b] else []
+  | QBranchesRepos l => flat_map (fun bi => if memN (r_id r) (snd bi) && in_branch r d (fst bi) then [fst bi] else []) l
+  | QAnd2 a b => if eval no_tr a r d && eval no_tr b r d then bcontrib a r d ++ bcontrib b r d else []
+  | QOr2 a b => bcontrib a r d ++ bcontrib b r d
+  | _ => []
+  end.
+
+Definition file_branches (cs : list Q) (s : shard) (r : repo) (d : doc) : list N :=
+  let m := flat_map (fun c => bcontrib (simp_sh s c) r d) cs in
+  filter (fun b => memN b (d_branches d) && match m with [] => true | _ => memN b m end) (r_branches r).
+
+(** per-shard search with the reported branches *)
+Definition search_shard_br (cs : list Q) (s : shard) : list (N * list N) :=
+  flat_map (fun rd => map (fun d => (d_id d, file_branches cs s (fst rd) d))
+                          (filter (eval_top no_tr cs (fst rd)) (snd rd))) (sh_parts s).
+Definition sharded_search_br_gen (guard : bool) (shards : list shard) (cs : list Q) : list (N * list N) :=
+  let '(sel, cs') := select_gen guard shards cs in flat_map (search_shard_br cs') sel.
+Definition sharded_search_br := sharded_search_br_gen true.
+
 (** ---- correspondence runner ------------------------------------------------------------------ *)
 (** query terms of the cases: predicates are given extensionally *)
 Inductive cq :=
@@ -227,13 +286,20 @@ Definition row4_eqb (a b : N * N * N * N) : bool :=
   N.eqb a1 b1 && N.eqb a2 b2 && N.eqb a3 b3 && N.eqb a4 b4.
 
 (** a case: shards, top-level children, observed Search file ids (sorted), observed List rows
-    (name, id, Stats.Documents, Stats.Shards) sorted by name.  The type:repo nodes are expanded first, as
+    (name, id, Stats.Documents, Stats.Shards) sorted by name, observed FileMatch.Branches per file.  The type:repo nodes are expanded first, as
     typeRepoSearcher does, then the sharded searcher runs. *)
-Definition c18case := (list c18shard * list cq * list N * list (N * N * N * N))%type.
+Fixpoint ins_fb (x : N * list N) (l : list (N * list N)) : list (N * list N) :=
+  match l with [] => [x] | y :: r => if N.leb (fst x) (fst y) then x :: l else y :: ins_fb x r end.
+Definition sort_fb (l : list (N * list N)) := fold_right ins_fb [] l.
+Definition fb_eqb (a b : N * list N) : bool := N.eqb (fst a) (fst b) && list_eqb N.eqb (snd a) (snd b).
+
+(** [obr]: observed (file id, FileMatch.Branches as branch ids in the order reported) sorted by file id *)
+Definition c18case := (list c18shard * list cq * list N * list (N * N * N * N) * list (N * list N))%type.
 Definition c18_ok (c : c18case) : bool :=
-  let '(shs, cs, ofiles, olist) := c in
+  let '(shs, cs, ofiles, olist, obr) := c in
   let shards := map mk_shard shs in
   let qs := map (fun c => expand shards (of_cq c)) cs in
   list_eqb N.eqb (sortN (sharded_search shards qs)) ofiles &&
-  list_eqb row4_eqb (sort_rows (map le_row (sharded_list shards qs))) olist.
+  list_eqb row4_eqb (sort_rows (map le_row (sharded_list shards qs))) olist &&
+  list_eqb fb_eqb (sort_fb (sharded_search_br shards qs)) obr.
 Definition c18_mismatches (cs : list c18case) : list N := bad_indexes c18_ok cs.
